@@ -91,6 +91,10 @@ func (m *Model) Layout() {
 			}
 		}
 	}
+	if len(l.characters) > 0 {
+		// The last line has no terminator
+		m.lines = append(m.lines, l)
+	}
 }
 
 // Scrolls the pager down n lines, if it can
